@@ -100,7 +100,7 @@ def io3(ctx, prog, cfg):
                        r"call %s\(&\{%s\}, %s\)" % (SR, back, dst2),
                        r"call CircularBuffer::len\(self\)",
                        r"call CircularBuffer::truncate_front\(self, Sub\(\(\*self\)\.size, Add\(%s, %s\)\)\)" % (r1, r2),
-                       r"return phi"], cfg,
+                       r"return Result::Ok\{0: Add\(%s, %s\)\}" % (r1, r2)], cfg,
                       "front -> dst, back -> dst[r1..], truncate_front(len - (r1 + r2))",
                       "`read` does not copy from the front slice and then the back slice of one as_slices() call into dst and "
                       "dst[r1..], and/or does not remove exactly r1 + r2 bytes from the front after both copies")
@@ -128,7 +128,8 @@ def io3(ctx, prog, cfg):
     f = ctx.need_fn(prog, BR + "fill_buf", "IO3")
     if f is not None:
         shapes.must_match(ctx, "IO3", prog, f.short,
-                          [r"call CircularBuffer::as_slices\(self\)", r"call <\[T\]>::is_empty\(%s\)" % front, r"guard <\[T\]>::is_empty\(%s\)" % front, r"return phi"], cfg,
+                          [r"call CircularBuffer::as_slices\(self\)", r"call <\[T\]>::is_empty\(%s\)" % front, r"guard <\[T\]>::is_empty\(%s\)" % front,
+                           r"return Result::Ok\{0: %s\}" % front, r"return Result::Ok\{0: %s\}" % back], cfg,
                           "one as_slices(); branch on front.is_empty()", "`fill_buf` does not choose between the two results of one as_slices() by front.is_empty()", guards=True)
         G = guards.Guards(f)
         for (b, i, k, payload) in common.ret_assignments(f):
